@@ -122,3 +122,15 @@ Proof.
       (split; [intros ? []|]); (split; [intros lk _ H; exfalso; apply H; reflexivity|intros ? []]).
   - repeat constructor; cbn; try lia; intros k [<-|[]]; reflexivity.
 Qed.
+
+(* non-vacuity with expire in the body: a lives in the store without a deadline; `expire a` alone in a LOCKED block gives it
+   one at commit and releases the lock; when the block's read of the store (the second underlying command) fails, the caller
+   sees the exception, a keeps no deadline and no lock is left *)
+Definition ex_w2 (fl : list nat) : world :=
+  {| bks := [txb0 (s_write empty 0 "a" (VInt 7) 0)]; pos := 0; faults := fl; lorder := [[]] |}.
+Example C16_example_expire :
+  prog_ok 1 [(0%nat, BExpire "a" 32)] /\
+  map (fun fl => let '(w', exc, inside) := block MLocked ["a"] 0 (ex_w2 fl) [0%nat] [(0%nat, BExpire "a" 32)] in
+                 (exc, inside, bLocks (get_b w' 0), bB (get_b w' 0) "a", isSome (bB (get_b w' 0) ":tx_lock:a"))) [[]; [1%nat]]
+  = [(false, false, [], Some (Some 32, VInt 7), false); (true, false, [], Some (None, VInt 7), false)].
+Proof. split; [repeat constructor; cbn; try lia; intros k [<-|[]]; reflexivity|vm_compute; reflexivity]. Qed.
